@@ -156,6 +156,7 @@ Definition obs_eqb (a b : obs) : bool := tm_eqb (tm_obs (norm_obs a)) (tm_obs (n
 Definition accepted (o : obs) : bool := match o with OOk _ => true | _ => false end.
 Definition holds_violating (o : obs) : bool := match o with OOk j => negb (fi_specb j) | _ => false end.
 Definition flag (b : bool) (code : Z) : list Z := if b then [code] else [].
+Definition is_panic (o : obs) : bool := match o with OOther 9 => true | _ => false end.
 
 (** codes: 1/2/3/4/5 the model's outcome at validate/save/load/load of format 2/load of format 1
     differs from the implementation's; 11/12/13/16/17 the implementation's verdict there differs
@@ -181,7 +182,9 @@ Definition check_case (c : case) : list Z :=
    flag (v2_applicable r && negb (Bool.eqb (accepted (c_load2 c)) spec_says)) 16 ++
    flag (v1_applicable r && negb (Bool.eqb (accepted (c_load1 c)) spec_says)) 17) ++
   flag (holds_violating (c_load2 c)) 18 ++
-  flag (holds_violating (c_load1 c)) 19.
+  flag (holds_violating (c_load1 c)) 19 ++
+  (* a panic (the harness reports it as OOther 9) is never an answer: neither accepted nor refused *)
+  flag (existsb is_panic [c_val c; c_save c; c_load c; c_load2 c; c_load1 c]) 20.
 
 Fixpoint check_all (k : Z) (cs : list case) : list (Z * list Z) :=
   match cs with
